@@ -52,6 +52,7 @@ class Unit:
     def __init__(self, name, timeout_ms=60000):
         self.r = new_unit(name)
         self.timeout_ms = timeout_ms
+        self.max_cex = 2
 
     # -- exploration bookkeeping ------------------------------------------
     def absorb(self, ex, paths):
@@ -102,6 +103,12 @@ class Unit:
         ``block`` is negated, added to the query, and the query is solved
         again so that a different violation still surfaces.
         Returns True when discharged (possibly modulo known findings)."""
+        # fail fast: once a unit holds enough replayed, unlisted violations, the
+        # remaining obligations of the unit are skipped (they are not counted)
+        fresh = [c for c in self.r["cex"] if c.get("reproduced") and c.get("key") not in _known_keys()]
+        if len(fresh) >= self.max_cex:
+            self.r["skipped_after_violation"] = self.r.get("skipped_after_violation", 0) + 1
+            return False
         self.r["obligations"] += 1
         hyps = list(hyps)
         neg = z3.Not(phi)
@@ -123,7 +130,8 @@ class Unit:
         for _ in range(max_findings):
             if abstract:
                 # fast path: UF applications as opaque constants (sound for unsat)
-                r, m, _s = self.solve(symx.abstract_ufs(hyps + ax + extra + [neg]))
+                r, m, _s = self.solve(symx.abstract_ufs(hyps + ax + extra + [neg]),
+                                      timeout_ms=min(self.timeout_ms, 20000))
                 if r == "unsat":
                     self.r["discharged"] += 1
                     return True
@@ -327,6 +335,9 @@ class Check:
             "not_encoded": sorted({x for u in self.units for x in u["not_encoded"]}),
             "notes": [n for u in self.units for n in u["notes"]][:40],
             "harness_errors": ["%s: %s" % e for e in errors][:20],
+            "slowest_units_s": [[u["unit"], round(u.get("wall_s", 0), 1)] for u in
+                                sorted(self.units, key=lambda u: -u.get("wall_s", 0))[:8]],
+            "obligations_skipped_after_violation": sum(u.get("skipped_after_violation", 0) for u in self.units),
             "samples": samples,
             "trusted_base": self.trusted,
             "checker_cmd": "./check %s --tier %s" % (self.pid, self.tier),
